@@ -50,7 +50,7 @@ def run_case(case):
     out = J.Outcome()
     spec = case["spec"]
     m = M.RefEnum(spec)
-    rnd = random.Random(case["seed"])
+    rnd = J.case_rng(case)
     triples = [(a, b, h) for a, b, h in case["triples"]]
     for (i, j) in C.all_pairs_or_sample(m, rnd):
         sub = len(m.range_values(i, j))
